@@ -176,7 +176,7 @@ func countGet() { PoolGets++ }
 
 //go:norace
 func markCrit(d int8) {
-	if schedActive && cur >= 0 && cur < len(inPoolCrit) {
+	if schedActive && cur >= 0 && cur < maxIDs {
 		inPoolCrit[cur] += d
 		if inPoolCrit[cur] < 0 {
 			inPoolCrit[cur] = 0
@@ -333,6 +333,10 @@ func poolGiveSlot(k int, ch chan any) {
 type Mutex struct{ mu sync.Mutex }
 
 func (m *Mutex) Lock() {
+	if !chanSim() {
+		m.mu.Lock() // outside a simulated run (repository-test gate): the plain primitive
+		return
+	}
 	for !m.mu.TryLock() {
 		spin()
 	}
@@ -344,6 +348,10 @@ func (m *Mutex) TryLock() bool { return m.mu.TryLock() }
 type RWMutex struct{ mu sync.RWMutex }
 
 func (m *RWMutex) Lock() {
+	if !chanSim() {
+		m.mu.Lock()
+		return
+	}
 	for !m.mu.TryLock() {
 		spin()
 	}
@@ -351,6 +359,10 @@ func (m *RWMutex) Lock() {
 }
 func (m *RWMutex) Unlock() { m.mu.Unlock(); SchedPoint(-5) }
 func (m *RWMutex) RLock() {
+	if !chanSim() {
+		m.mu.RLock()
+		return
+	}
 	for !m.mu.TryRLock() {
 		spin()
 	}
@@ -394,18 +406,42 @@ func spin() {
 	if !schedActive || cur == mainTask {
 		panic("verifrt: lock held while no other task can run (deadlock in the simulated program)")
 	}
+	// Round-robin hand-over reaches every live task within nAlive spins, and a
+	// task that is not itself waiting executes a statement (Yield resets the
+	// streak): a streak of several full rounds means every live task waits.
+	spinStreak++
 	me := cur
 	to := -1
-	for k := 1; k <= nTasks; k++ {
-		c := (me + k) % nTasks
-		if c != me && alive[c] {
-			to = c
+	for i := nextID(me); ; i = nextID(i) {
+		if i < 0 {
+			i = nextID(-1)
+			if i < 0 {
+				break
+			}
+		}
+		if i == me {
+			break
+		}
+		if alive[i] && blockedOn[i] == 0 {
+			to = i
 			break
 		}
 	}
 	Decisions++
-	if to < 0 {
-		panic("verifrt: deadlock - lock is held and no other task is alive")
+	if to < 0 || spinStreak > uint64(4*nAlive+64) {
+		if nAliveBase == 0 {
+			// Only goroutines the code under test started are left and all of them
+			// wait: the run is over. They stay parked (alive, waiting for the baton)
+			// and are part of the next run of this process.
+			spinStreak = 0
+			handOver(me, mainTask, -13)
+			waitBaton(me)
+			return
+		}
+		if to < 0 {
+			panic("verifrt: deadlock - a caller waits on a lock or channel and no other task is alive")
+		}
+		panic("verifrt: deadlock - every live task waits on a channel or lock that nobody will release")
 	}
 	handOver(me, to, -6)
 	waitBaton(me)
